@@ -39,6 +39,7 @@ class Flag:
         self.cms: list = []  # classes whose __enter__/__exit__ set / clear the flag (class-based context managers)
         self.guarded_setters: set = set()  # setters that raise when the flag is already set
         self.raising_getters: set = set()
+        self.exchange: set = set()  # setters that return the value the flag had before (`old = tl.v; tl.v = True; return old`)
 
     @property
     def name(self):
@@ -88,6 +89,22 @@ def _parametric_polarity(model, roles, fn):
     return None
 
 
+def _returns_previous(roles, fn) -> bool:
+    """`old = tl.v` (or getattr(tl, 'v', d)) as the first access of the flag, every return hands back `old`, `old` is bound once"""
+    body = [st for st in fn.node.body if not (isinstance(st, ast.Expr) and isinstance(st.value, ast.Constant))]
+    if len(body) < 3 or not isinstance(body[0], ast.Assign) or len(body[0].targets) != 1 or not isinstance(body[0].targets[0], ast.Name):
+        return False
+    old, v = body[0].targets[0].id, body[0].value
+    if isinstance(v, ast.Call) and isinstance(v.func, ast.Name) and v.func.id == "getattr" and len(v.args) >= 2 and isinstance(v.args[1], ast.Constant):
+        v = ast.Attribute(value=v.args[0], attr=v.args[1].value, ctx=ast.Load())
+    if not (isinstance(v, ast.Attribute) and roles.tl_of_expr(fn, v) is not None):
+        return False
+    stores = [n for n in walk_scope(fn.node) if isinstance(n, ast.Name) and n.id == old and isinstance(n.ctx, ast.Store)]
+    rets = [n for n in walk_scope(fn.node) if isinstance(n, ast.Return)]
+    return len(stores) == 1 and bool(rets) and all(isinstance(r_.value, ast.Name) and r_.value.id == old for r_ in rets) \
+        and not any(isinstance(n, (ast.If, ast.While, ast.For, ast.Try, ast.With)) for n in walk_scope(fn.node))
+
+
 def discover_flags(model: Model, roles: Roles, stack_tl) -> list:
     flags: dict = {}
     by_fn: dict = {}
@@ -125,6 +142,8 @@ def discover_flags(model: Model, roles: Roles, stack_tl) -> list:
                 fl.clearers.append(fn)
             elif all(truthy):
                 fl.setters.append(fn)
+                if _returns_previous(roles, fn):
+                    fl.exchange.add(q)
                 if any(isinstance(n, ast.Raise) for n in walk_scope(fn.node)) and loads:
                     fl.guarded_setters.add(q)
             else:
@@ -404,6 +423,11 @@ def analyse_flag_function(model: Model, roles: Roles, cg: CallGraph, flag: Flag,
                         break
                 else:
                     exc_states.add((v, e))
+                if q in flag.exchange:
+                    # the setter hands back what the flag was: `was = set_flag()` saves the entry value like `was = get_flag()`
+                    sv = saved_var(node, c)
+                    if sv is not None and v == "E" and not is_exc:
+                        saved_d[sv] = "E"
                 cur = ("SET", e)
             elif ro == "clr":
                 cur = ("CLR" if v != "ERR" else "ERR", e)
